@@ -96,6 +96,9 @@ def oracle(case, seed):
         fails.append("prior list changes the random draws")
     for i, (a, b) in enumerate(zip(r0.singles, r1.singles)):
         realised = r1.kin[i][0] if i < len(r1.kin) else {}
+        # only parameters the lens HAS count (from the configuration, not from what the implementation handed on)
+        own = lc.own_parameters(case["cfg"], case["hyper"])
+        realised = {k: v for k, v in realised.items() if k in own}
         want = formula(case["prior_list"], realised)
         if math.isfinite(a) and not close(b - a, want, 1e-9, atol=1e-9 * max(1.0, abs(a))):
             fails.append("draw %d: prior adds %r but the formula on the realised parameters %s gives %r" % (i, b - a, sorted(realised), want))
